@@ -57,12 +57,15 @@ ExeMode   == "exe"
 \*   tenv    reads RPV_T which the task description's environment provides
 \*   sysexit leaves via SystemExit
 \*   sig     (proc / shell only) the process is killed by a signal
-Kinds     == {"ret", "print", "raise", "setenv", "delenv", "swapout", "coro", "tenv", "sysexit"}
+\*   die     (python modes) the payload takes its own process down without reporting
+\*           (os._exit, SIGKILL, SIGSEGV): no result, no exception, nothing restored
+Kinds     == {"ret", "print", "raise", "setenv", "delenv", "swapout", "coro", "tenv", "sysexit",
+              "die"}
 ProcKinds == {"ret", "print", "raise", "tenv", "sig"}
 KindOK(k, m) == IF m \in ProcModes THEN k \in ProcKinds
                 ELSE IF k = "coro" THEN m = "func" ELSE k \in Kinds
 
-Succeeds(k)  == k \notin {"raise", "sysexit", "sig"}
+Succeeds(k)  == k \notin {"raise", "sysexit", "sig", "die"}
 
 \* expected outcome tuple, in the projection the rig logs (newline shown as /)
 ExpVal(k, m) == IF m \in ProcModes \/ ~Succeeds(k) THEN "none"
